@@ -60,6 +60,8 @@ fn exec_line_inner(line: &str) -> String {
 fn main() {
     util::quiet_panics();
     unsafe { libc::umask(0o022); }
+    // the code under test may leak descriptors (that is then reported); the harness itself must survive it
+    unsafe { let mut l = libc::rlimit { rlim_cur: 0, rlim_max: 0 }; if libc::getrlimit(libc::RLIMIT_NOFILE, &mut l) == 0 { l.rlim_cur = l.rlim_max; libc::setrlimit(libc::RLIMIT_NOFILE, &l); } }
     wire::self_test();
     let args: Vec<String> = std::env::args().collect();
     let out = std::io::stdout();
